@@ -12,6 +12,16 @@
 //	typed    "@(" tree ")" for typed evaluable trees (ref.go) with random operand values
 //	literal  random character strings as legacy literals
 //
+//	seq      the same date-valued and other context references migrated again and again under varying MigrateOptions
+//	         (RawDates, DefaultToSelf, URLEncode) in PRNG order, and whole legacy DEFINITIONS (legacy.MigrateDefinition)
+//	         with date tests (migrated with RawDates) and messages mentioning the same date references
+//
+// Migration must be a function of (template, options) only.  Everything the main process migrates is migrated
+// again (a) at the end of the run in the same process and (b) in two fresh worker processes (this binary with
+// C17_WORKER=1), one per RawDates value, in reverse order: any difference is an oracle failure (O7).  The
+// MigrateContextReference values given to the Coq model are those of the worker processes, so a result that depends
+// on what was migrated before also shows as a model/implementation mismatch.
+//
 // Correspondence: for every template of corpus/gen/typed the token list of the REAL template scanner, the
 // MigrateContextReference results for the names that occur, the options, the output of the REAL
 // expressions.MigrateTemplate and the trees excellent.Parse builds for the expressions of the output go to
@@ -27,6 +37,8 @@
 //	               parentheses) of the migrated node — needs no knowledge of what the functions mean
 //	O6 rescan      scanning the migrated template with the new scanner gives the legacy body text and, between it,
 //	               exactly the expressions the tokens migrate to on their own (nothing glued, nothing cut)
+//	O7 stateless   re-migrating every input at the end of the run, and in fresh processes in another order, gives
+//	               the same output
 //	O4 body        MigrateTemplate(t) is the concatenation over the scanner tokens of t of: the body token
 //	               itself / the migration of the identifier or expression alone (a bare identifier may keep
 //	               its parentheses when body text follows)
@@ -37,12 +49,14 @@ import (
 	"fmt"
 	"math/big"
 	"os"
+	"os/exec"
 	"path/filepath"
 	"regexp"
 	"strings"
 
 	"github.com/nyaruka/goflow/excellent"
 	"github.com/nyaruka/goflow/flows"
+	"github.com/nyaruka/goflow/flows/definition/legacy"
 	"github.com/nyaruka/goflow/flows/definition/legacy/expressions"
 
 	"verifharness/pkg/hx"
@@ -463,10 +477,9 @@ func coqSeg(s seg) string {
 
 // clean: the driver built the template from trees for which the intended tree of the specification must exist
 // (checked by the model run: proofs/LegacyProofs.v check_hyp)
-func emitCase(sh *sharder, tc tcase, out string, hasErr bool, clean bool) {
-	segs := scanReal(tc.Template, expressions.ContextTopLevels)
+func namesOf(tpl string) []string {
 	names := map[string]bool{}
-	for _, s := range segs {
+	for _, s := range scanReal(tpl, expressions.ContextTopLevels) {
 		if s.T == 1 {
 			names[s.S] = true
 		} else if s.T == 2 {
@@ -475,9 +488,16 @@ func emitCase(sh *sharder, tc tcase, out string, hasErr bool, clean bool) {
 			}
 		}
 	}
+	return hx.SortedKeys(names)
+}
+
+// ctxOf gives MigrateContextReference(name, rawDates) as computed in a process that never used the other
+// RawDates value (see workers)
+func emitCase(sh *sharder, tc tcase, out string, hasErr bool, clean bool, ctxOf func(name string, rawDates bool) string) {
+	segs := scanReal(tc.Template, expressions.ContextTopLevels)
 	var pairs []string
-	for _, n := range hx.SortedKeys(names) {
-		pairs = append(pairs, "("+hx.Str(n)+", "+hx.Str(expressions.MigrateContextReference(n, tc.Options.RawDates))+")")
+	for _, n := range namesOf(tc.Template) {
+		pairs = append(pairs, "("+hx.Str(n)+", "+hx.Str(ctxOf(n, tc.Options.RawDates))+")")
 	}
 	// expressions of the migrated output, with the trees the real parser builds
 	var exprs []string
@@ -841,6 +861,154 @@ func oracleValue(res *hx.Result, tc tcase, t *lt, vars []varDecl, out string) (c
 
 // ---------------------------------------------------------------------------------------------
 
+// ---------------------------------------------------------------------------------------------
+// worker processes (O7)
+
+type workerIn struct {
+	Cases    []tcase  `json:"cases"`
+	Names    []string `json:"names"`
+	RawDates bool     `json:"raw_dates"`
+}
+
+type workerOut struct {
+	Outs []struct {
+		Out string `json:"out"`
+		Err bool   `json:"err"`
+	} `json:"outs"`
+	Ctx map[string]string `json:"ctx"`
+}
+
+// workerMain: every case has Options.RawDates == RawDates, so this process never sees the other value; the cases
+// are migrated in reverse order (another history than the main process had)
+func workerMain() {
+	var in workerIn
+	if err := json.NewDecoder(os.Stdin).Decode(&in); err != nil {
+		fmt.Fprintln(os.Stderr, "worker:", err)
+		os.Exit(2)
+	}
+	var out workerOut
+	out.Outs = make([]struct {
+		Out string `json:"out"`
+		Err bool   `json:"err"`
+	}, len(in.Cases))
+	for i := len(in.Cases) - 1; i >= 0; i-- {
+		o, e, _ := migrateReal(in.Cases[i].Template, in.Cases[i].Options)
+		out.Outs[i].Out, out.Outs[i].Err = o, e
+	}
+	out.Ctx = map[string]string{}
+	for _, n := range in.Names {
+		out.Ctx[n] = expressions.MigrateContextReference(n, in.RawDates)
+	}
+	json.NewEncoder(os.Stdout).Encode(out)
+}
+
+func runWorker(in workerIn) workerOut {
+	b, _ := json.Marshal(in)
+	cmd := exec.Command(os.Args[0])
+	cmd.Env = append(os.Environ(), "C17_WORKER=1")
+	cmd.Stdin = strings.NewReader(string(b))
+	cmd.Stderr = os.Stderr
+	ob, err := cmd.Output()
+	if err != nil {
+		panic(fmt.Sprintf("worker process failed: %v", err))
+	}
+	var out workerOut
+	if err := json.Unmarshal(ob, &out); err != nil {
+		panic(fmt.Sprintf("worker output unreadable: %v", err))
+	}
+	return out
+}
+
+// ---------------------------------------------------------------------------------------------
+// whole legacy definitions: date tests are migrated with RawDates, messages without
+
+type defTemplate struct {
+	Template string
+	RawDates bool
+	Migrated string
+}
+
+var dateTemplates = []string{"@date.today", "@(date.today - 1)", "@(date.tomorrow + 3)", "@date.yesterday", "@(date.today + 10)", "@date.tomorrow",
+	"@(date.yesterday - 2)", "@date.now", "@(date.now + 1)", "@(DATEVALUE(date.today) + 1)", "@(contact.created_on + 1)"}
+
+func uuidN(k, i int) string { return fmt.Sprintf("%08x-1111-4111-8111-%012x", k, i) }
+
+// migrateDefinition builds a legacy flow with nMsg reply actions and nTest date rules, migrates it with the real
+// legacy.MigrateDefinition and returns the templates with what they became
+func migrateDefinition(r *hx.Rand, k int) ([]defTemplate, error) {
+	nMsg, nTest := r.Range(1, 3), r.Range(1, 3)
+	var tpls []defTemplate
+	var actionSets, rules []map[string]any
+	rsUUID := uuidN(k, 1000)
+	for i := 0; i < nMsg; i++ {
+		msg := "Hi " + hx.Pick(r, dateTemplates) + " and " + hx.Pick(r, dateTemplates) + "."
+		tpls = append(tpls, defTemplate{Template: msg})
+		actionSets = append(actionSets, map[string]any{"x": 0, "y": i * 100, "uuid": uuidN(k, i), "exit_uuid": uuidN(k, 100+i), "destination": rsUUID,
+			"actions": []map[string]any{{"type": "reply", "uuid": uuidN(k, 200+i), "msg": map[string]string{"base": msg}}}})
+	}
+	for i := 0; i < nTest; i++ {
+		test := hx.Pick(r, dateTemplates)
+		tpls = append(tpls, defTemplate{Template: test, RawDates: true})
+		rules = append(rules, map[string]any{"uuid": uuidN(k, 300+i), "destination": nil, "category": map[string]string{"base": fmt.Sprintf("C%d", i)},
+			"test": map[string]any{"type": hx.Pick(r, []string{"date_before", "date_after", "date_equal"}), "test": test}})
+	}
+	rules = append(rules, map[string]any{"uuid": uuidN(k, 399), "destination": nil, "category": map[string]string{"base": "Other"}, "test": map[string]any{"type": "true", "test": "true"}})
+	flow := map[string]any{"base_language": "base", "flow_type": "F", "version": "11.11",
+		"metadata": map[string]any{"uuid": uuidN(k, 9999), "name": fmt.Sprintf("Dates %d", k), "saved_on": nil},
+		"action_sets": actionSets,
+		"rule_sets": []map[string]any{{"x": 0, "y": 500, "uuid": rsUUID, "label": "When", "ruleset_type": "wait_message", "rules": rules}}}
+	data, _ := json.Marshal(flow)
+	migrated, err := legacy.MigrateDefinition(data, "")
+	if err != nil {
+		return nil, err
+	}
+	var def struct {
+		Nodes []struct {
+			Actions []struct {
+				UUID string `json:"uuid"`
+				Text string `json:"text"`
+			} `json:"actions"`
+			Router *struct {
+				Cases []struct {
+					UUID      string   `json:"uuid"`
+					Arguments []string `json:"arguments"`
+				} `json:"cases"`
+			} `json:"router"`
+		} `json:"nodes"`
+	}
+	if err := json.Unmarshal(migrated, &def); err != nil {
+		return nil, err
+	}
+	texts, args := map[string]string{}, map[string]string{}
+	for _, n := range def.Nodes {
+		for _, a := range n.Actions {
+			texts[a.UUID] = a.Text
+		}
+		if n.Router != nil {
+			for _, c := range n.Router.Cases {
+				if len(c.Arguments) > 0 {
+					args[c.UUID] = c.Arguments[0]
+				}
+			}
+		}
+	}
+	for i := 0; i < nMsg; i++ {
+		t, ok := texts[uuidN(k, 200+i)]
+		if !ok {
+			return nil, fmt.Errorf("migrated definition has no action %s", uuidN(k, 200+i))
+		}
+		tpls[i].Migrated = t
+	}
+	for i := 0; i < nTest; i++ {
+		a, ok := args[uuidN(k, 300+i)]
+		if !ok {
+			return nil, fmt.Errorf("migrated definition has no case %s", uuidN(k, 300+i))
+		}
+		tpls[nMsg+i].Migrated = a
+	}
+	return tpls, nil
+}
+
 var corpus = []string{
 	// F14a / F14b (repaired by the fix; must stay repaired)
 	`@(POWER(1+2, 3))`, `@(SUM(1,2)*3)`, `@(WEEKDAY("2024-01-01")*2)`, `@(CONCATENATE("a","b") = "ab")`, `@(RIGHT("hello", 1+1))`,
@@ -866,7 +1034,25 @@ func randOptions(r *hx.Rand) options {
 	return options{DefaultToSelf: r.Bool(), URLEncode: r.Chance(1, 3), RawDates: r.Bool()}
 }
 
+type pendingCase struct {
+	tc     tcase
+	out    string
+	hasErr bool
+	clean  bool
+}
+
+type record struct {
+	TC     tcase  `json:"case"`
+	Out    string `json:"out"`
+	Err    bool   `json:"err"`
+	Origin string `json:"origin"`
+}
+
 func main() {
+	if os.Getenv("C17_WORKER") == "1" {
+		workerMain()
+		return
+	}
 	o := hx.ParseOpts()
 	if o.Prop == "" {
 		o.Prop = "C17"
@@ -876,8 +1062,13 @@ func main() {
 	r := hx.NewRand(o.Seed)
 	sh := &sharder{o: o, res: res, shard: 150}
 
+	var pendings []pendingCase
+	var history []record
 	runCase := func(tc tcase, trees []*lt, clean bool, stream string) (string, bool) {
 		out, hasErr, pan := migrateReal(tc.Template, tc.Options)
+		if pan == "" {
+			history = append(history, record{tc, out, hasErr, stream})
+		}
 		nontriv := false
 		for _, t := range trees {
 			if t.nontrivial() {
@@ -894,7 +1085,7 @@ func main() {
 		if hasErr {
 			res.Dist("migrate-error")
 		}
-		emitCase(sh, tc, out, hasErr, clean)
+		pendings = append(pendings, pendingCase{tc, out, hasErr, clean})
 		oracleBody(res, tc, out)
 		if !hasErr {
 			oracleRescan(res, tc, out)
@@ -1170,6 +1361,46 @@ func main() {
 			}
 		}
 
+		// seq: the same references again and again under varying options, in PRNG order
+		n = o.Count(150, 4000)
+		rq := r.Fork("seq")
+		seqRefs := []string{"date.today", "date.tomorrow", "date.yesterday", "date.now", "date", "contact.created_on", "contact.age", "flow.1_month", "contact.tel"}
+		for i := 0; i < n; i++ {
+			ref := hx.Pick(rq, seqRefs)
+			var tpl string
+			switch rq.Intn(5) {
+			case 0:
+				tpl = "@" + ref
+			case 1:
+				tpl = "@(" + ref + " " + hx.Pick(rq, []string{"+", "-"}) + " " + hx.Pick(rq, []string{"1", "3", "10"}) + ")"
+			case 2:
+				tpl = "on @" + ref + " or @(" + hx.Pick(rq, seqRefs) + ")!"
+			case 3:
+				tpl = "@(DATEVALUE(" + ref + ") + 1)"
+			default:
+				tpl = "@(IF(" + ref + " = " + hx.Pick(rq, seqRefs) + ", 1, 2))"
+			}
+			tc := tcase{Template: tpl, Options: options{DefaultToSelf: rq.Chance(1, 4), URLEncode: rq.Chance(1, 5), RawDates: rq.Bool()}}
+			runCase(tc, nil, false, "seq")
+		}
+
+		// definitions: date tests (RawDates) and messages of one flow mention the same date references
+		n = o.Count(25, 600)
+		rd := r.Fork("definitions")
+		for i := 0; i < n; i++ {
+			tpls, err := migrateDefinition(rd, i+1)
+			res.Eval(fmt.Sprintf("definition %d", i), true)
+			res.Dist("stream=definitions")
+			if err != nil {
+				res.OracleChecks++
+				res.Fail("definition:migrate-error", map[string]any{"definition": i}, err.Error())
+				continue
+			}
+			for _, t := range tpls {
+				history = append(history, record{tcase{Template: t.Template, Options: options{RawDates: t.RawDates}}, t.Migrated, false, "definition"})
+			}
+		}
+
 		// literals
 		n = o.Count(600, 30000)
 		rl := r.Fork("literal")
@@ -1179,6 +1410,64 @@ func main() {
 			res.Dist("stream=literal")
 			oracleLiteral(res, s, rl.Chance(1, 3))
 		}
+	}
+
+	// O7: migration is a function of (template, options) only
+	stateClass := func(tpl string) string {
+		low := strings.ToLower(tpl)
+		for _, d := range []string{"date.today", "date.tomorrow", "date.yesterday"} {
+			if strings.Contains(low, d) {
+				return "state:result-depends-on-earlier-migrations:date-reference"
+			}
+		}
+		return "state:result-depends-on-earlier-migrations:other"
+	}
+	for _, h := range history {
+		res.OracleChecks++
+		out, hasErr, _ := migrateReal(h.TC.Template, h.TC.Options)
+		if out != h.Out && h.Origin != "definition" || hasErr != h.Err && h.Origin != "definition" {
+			res.Fail(stateClass(h.TC.Template), h.TC, fmt.Sprintf("migrated again at the end of the run: %q, the first time: %q", out, h.Out))
+		}
+	}
+	ctxMaps := map[bool]map[string]string{}
+	for _, raw := range []bool{false, true} {
+		in := workerIn{RawDates: raw}
+		var idx []int
+		names := map[string]bool{}
+		for i, h := range history {
+			if h.TC.Options.RawDates == raw {
+				in.Cases = append(in.Cases, h.TC)
+				idx = append(idx, i)
+			}
+		}
+		for _, p := range pendings {
+			if p.tc.Options.RawDates == raw {
+				for _, n := range namesOf(p.tc.Template) {
+					names[n] = true
+				}
+			}
+		}
+		in.Names = hx.SortedKeys(names)
+		wo := runWorker(in)
+		ctxMaps[raw] = wo.Ctx
+		for j, i := range idx {
+			res.OracleChecks++
+			h := history[i]
+			if j < len(wo.Outs) && (wo.Outs[j].Out != h.Out || (wo.Outs[j].Err != h.Err && h.Origin != "definition")) {
+				res.Fail(stateClass(h.TC.Template), map[string]any{"template": h.TC.Template, "options": h.TC.Options, "origin": h.Origin},
+					fmt.Sprintf("%s: migrated to %q in this process (after other migrations), to %q in a fresh process that only uses RawDates=%v", h.Origin, h.Out, wo.Outs[j].Out, raw))
+			}
+		}
+	}
+	res.Notes = append(res.Notes, fmt.Sprintf("stateless oracle: %d migrations repeated in-process and in 2 fresh processes", len(history)))
+	ctxOf := func(name string, raw bool) string {
+		if v, ok := ctxMaps[raw][name]; ok {
+			return v
+		}
+		return expressions.MigrateContextReference(name, raw)
+	}
+	for _, p := range pendings {
+		emitCase(sh, p.tc, p.out, p.hasErr, p.clean, ctxOf)
 	}
 
 	sh.flush()
